@@ -941,6 +941,35 @@ func (w *World) doAlloc(op *Op) {
 		"init": ints(cur[va])})
 }
 
+// doRemap moves pages of a LIVE buffer to new physical frames (Driver.Remap /
+// Driver.Distribute keep the virtual addresses; the contents are not moved).
+// The Map event carries the new page table entries and what the buffer now
+// holds, read through the page table.
+func (w *World) doRemap(op *Op) {
+	b := w.bufs[op.B]
+	c, _ := w.ctxOf(b.ctx)
+	np := len(b.devs)
+	if len(op.Dist) > 1 {
+		per := w.d.Distribute(c, driver.Ptr(b.va), b.n, op.Dist)
+		i := 0
+		for k, bytes := range per {
+			for p := uint64(0); p < bytes/w.page && i < np; p++ {
+				b.devs[i] = op.Dist[k]
+				i++
+			}
+		}
+	}
+	for _, rm := range op.Remap {
+		if rm[0] < np {
+			w.d.Remap(c, b.va+uint64(rm[0])*w.page, w.page, rm[1])
+			b.devs[rm[0]] = rm[1]
+		}
+	}
+	cur := w.readAll()
+	w.snap[b.va] = cur[b.va]
+	w.emit("Map", ab.Rec{"b": b.id, "va": int(b.va), "n": int(b.n), "pages": w.pagesOf(b), "init": ints(cur[b.va])})
+}
+
 func (w *World) doFree(op *Op) {
 	b := w.bufs[op.B]
 	c, _ := w.ctxOf(b.ctx)
@@ -1058,6 +1087,8 @@ func (w *World) exec() {
 			w.newCtx()
 		case "alloc":
 			w.doAlloc(op)
+		case "remap":
+			w.doRemap(op)
 		case "free":
 			w.doFree(op)
 		case "h2d", "d2h":
